@@ -64,6 +64,13 @@ pub struct Entry {
     /// 0: literal, 1: first char of the key as \uXXXX (BMP) or \u{X}, 2: every char of the key as \u{X}
     #[serde(default)]
     pub esc: u8,
+    /// spelling variants of the row that denote the same entry (all accepted by the lexicon reader):
+    /// bits 0-1 mode column: 0 upper case, 1 lower case, 2 alias (`*` for C, `BC` for B), 3 padded with blanks;
+    /// bit 2: empty lists written as an empty field instead of `*`; bit 3: the optional 19th column left out when
+    /// there are no synonym groups; bit 4: an ignored 20th column; bit 5: first character of headword / reading /
+    /// normalised form / a POS component written as \u{X}; bit 6: every field quoted
+    #[serde(default)]
+    pub syntax: u8,
 }
 
 impl Entry {
@@ -84,6 +91,7 @@ impl Entry {
             word_structure: vec![],
             synonyms: vec![],
             esc: 0,
+            syntax: 0,
         }
     }
     pub fn indexed(&self) -> bool {
@@ -101,11 +109,33 @@ pub struct Matrix {
 }
 
 impl Matrix {
+    /// The text form. Equivalent spellings the reader accepts (blank lines before the header and between
+    /// lines, tabs / runs of blanks as separators, blanks around a line, CRLF) are chosen from the content
+    /// itself (sum of the numbers mod 8), so that a matrix always renders the same way.
     pub fn render(&self) -> String {
+        let style = (self.nl as usize + self.nr as usize * 3 + self.lines.iter().map(|(l, r, c)| *l as usize + *r as usize + (*c as i32 + 40000) as usize).sum::<usize>()) % 8;
+        let sep = match style {
+            1 | 5 => "\t",
+            2 => "  ",
+            _ => " ",
+        };
+        let eol = if style == 3 || style == 5 { "\r\n" } else { "\n" };
         let mut s = String::new();
-        writeln!(s, "{} {}", self.nl, self.nr).unwrap();
-        for (l, r, c) in &self.lines {
-            writeln!(s, "{} {} {}", l, r, c).unwrap();
+        if style == 4 || style == 5 {
+            s.push_str(eol);
+            s.push_str("  ");
+            s.push_str(eol);
+        }
+        write!(s, "{}{}{}{}", self.nl, sep, self.nr, eol).unwrap();
+        for (i, (l, r, c)) in self.lines.iter().enumerate() {
+            if style >= 4 && i % 3 == 1 {
+                s.push_str(eol);
+            }
+            if style == 6 {
+                write!(s, " {}{}{}{}{} {}", l, sep, r, sep, c, eol).unwrap();
+            } else {
+                write!(s, "{}{}{}{}{}{}", l, sep, r, sep, c, eol).unwrap();
+            }
         }
         s
     }
@@ -225,31 +255,59 @@ fn render_refs(v: &[WRef]) -> String {
 }
 
 pub fn render_entry(e: &Entry) -> String {
-    let mut f: Vec<String> = Vec::with_capacity(19);
+    let sy = e.syntax;
+    let esc_first = |s: &str| -> String {
+        if sy & 32 == 0 || s == "*" {
+            return s.to_string();
+        }
+        let mut it = s.chars();
+        match it.next() {
+            Some(c) if c != '\\' => format!("{}{}", esc_char(c, true), it.as_str()),
+            _ => s.to_string(),
+        }
+    };
+    let empty = if sy & 4 != 0 { "" } else { "*" };
+    let list = |v: &[WRef]| if v.is_empty() { empty.to_string() } else { render_refs(v) };
+    let mut f: Vec<String> = Vec::with_capacity(20);
     f.push(render_key(e, &e.key));
     f.push(e.left.to_string());
     f.push(e.right.to_string());
     f.push(e.cost.to_string());
-    f.push(if e.headword == e.key { render_key(e, &e.headword) } else { e.headword.clone() });
-    for p in &e.pos {
-        f.push(p.clone());
+    f.push(if e.headword == e.key { render_key(e, &e.headword) } else { esc_first(&e.headword) });
+    for (i, p) in e.pos.iter().enumerate() {
+        f.push(if i == 1 { esc_first(p) } else { p.clone() });
     }
-    f.push(e.reading.clone());
-    f.push(e.normalized.clone());
+    f.push(esc_first(&e.reading));
+    f.push(esc_first(&e.normalized));
     f.push(match &e.dic_form {
         None => "*".to_string(),
         Some(r) => render_ref(r),
     });
-    f.push(e.mode.to_string());
-    f.push(render_refs(&e.split_a));
-    f.push(render_refs(&e.split_b));
-    f.push(render_refs(&e.word_structure));
-    f.push(if e.synonyms.is_empty() {
-        "*".to_string()
-    } else {
-        e.synonyms.iter().map(|x| x.to_string()).collect::<Vec<_>>().join("/")
+    f.push(match (sy & 3, e.mode) {
+        (1, m) if m != '*' => m.to_ascii_lowercase().to_string(),
+        (2, 'C') => "*".to_string(),
+        (2, 'B') => "BC".to_string(),
+        (3, m) => format!(" {} ", m),
+        (_, m) => m.to_string(),
     });
-    f.iter().map(|x| csv_field(x)).collect::<Vec<_>>().join(",")
+    f.push(list(&e.split_a));
+    f.push(list(&e.split_b));
+    f.push(list(&e.word_structure));
+    if e.synonyms.is_empty() {
+        if sy & 8 == 0 {
+            f.push(empty.to_string());
+        }
+    } else {
+        f.push(e.synonyms.iter().map(|x| x.to_string()).collect::<Vec<_>>().join("/"));
+    }
+    if sy & 16 != 0 && f.len() == 19 {
+        f.push("ignored".to_string());
+    }
+    if sy & 64 != 0 {
+        f.iter().map(|x| format!("\"{}\"", x.replace('"', "\"\""))).collect::<Vec<_>>().join(",")
+    } else {
+        f.iter().map(|x| csv_field(x)).collect::<Vec<_>>().join(",")
+    }
 }
 
 pub fn render_csv(entries: &[Entry]) -> String {
